@@ -462,6 +462,7 @@ class Ctx:
     """Ranges of symbols and atoms, and facts (boolean terms known true)."""
 
     def __init__(self, ranges=None, facts=None, tables=None):
+        self.elem_bounds = {}              # symbolic base sequence term -> (lo, hi) of all its elements (class invariant)
         self.ranges = dict(ranges or {})   # atom -> (lo, hi)
         self.facts = list(facts or [])     # list of B known true
         self.tables = tables or {}         # name -> list of Fractions
@@ -474,7 +475,35 @@ class Ctx:
         c.int_atoms = set(self.int_atoms)
         c.origin = self.origin
         c.origins = dict(self.origins)
+        c.elem_bounds = dict(self.elem_bounds)
         return c
+
+    def elem_hull(self, term):
+        """interval containing every element of a sequence term: the pushed values plus the declared bounds of the symbolic
+        base sequence (a class invariant installed by a rule); None when unknown"""
+        lo, hi = None, None
+
+        def join(l_, h_):
+            nonlocal lo, hi
+            lo = l_ if lo is None else min(lo, l_)
+            hi = h_ if hi is None else max(hi, h_)
+        t = term
+        for _ in range(200):
+            if not (isinstance(t, tuple) and t):
+                return None
+            if t[0] == 'push' and len(t) >= 3 and isinstance(t[2], Poly):
+                join(*self.rng(t[2]))
+                t = t[1]
+            elif t[0] in ('retain', 'from', 'take', 'skip') and len(t) >= 2:
+                t = t[1]
+            elif t in (('new',), ('clear',)):
+                return (lo, hi) if lo is not None else (Fr(0), Fr(0))
+            elif t in self.elem_bounds:
+                join(*self.elem_bounds[t])
+                return (lo, hi)
+            else:
+                return None
+        return None
 
     def __deepcopy__(self, memo):
         return self.copy()
@@ -768,7 +797,7 @@ class Ctx:
             return self.decide_cmp(k[1], k[2])
         return None
 
-    def decide_cmp(self, op, d):
+    def decide_cmp(self, op, d, _depth=0):
         lo, hi = self.rng(d)
         r = _decide_by_range(op, lo, hi)
         if r is not None:
@@ -818,6 +847,205 @@ class Ctx:
             r = _decide_by_range(op, lo, hi)
             if r is not None:
                 return r
+        # linear closure of the order facts (Fourier-Motzkin over the rationals, monomials as variables)
+        if _depth == 0:
+            r = self._fm_decide(op, d)
+            if r is not None:
+                return r
+        # min(a,b) / max(a,b) is one of its arguments: a comparison that comes out the same for both holds
+        # (the float variants return the other operand when one is NaN, still one of the two)
+        if _depth < 3:
+            for a in d.atoms():
+                if a[0] in ('min', 'max', 'fmin', 'fmax') and len(a) == 3 and isinstance(a[1], Poly) and isinstance(a[2], Poly) \
+                        and not a[1].is_nan() and not a[2].is_nan():
+                    r1 = self.decide_cmp(op, d.subst({a: a[1]}), _depth + 1)
+                    if r1 is None:
+                        continue
+                    r2 = self.decide_cmp(op, d.subst({a: a[2]}), _depth + 1)
+                    if r2 == r1:
+                        return r1
+        return None
+
+    # ---- linear closure of order facts
+    def _lin(self, p):
+        """polynomial as ({monomial: coeff}, const): every non-constant monomial is an uninterpreted variable"""
+        co, c0 = {}, Fr(0)
+        for m, c in p.t.items():
+            if m == ():
+                c0 += c
+            else:
+                co[m] = co.get(m, Fr(0)) + c
+        return co, c0
+
+    def _fm_infeasible(self, cons):
+        """cons: list of (coeffs, const, strict) meaning sum + const (< | <=) 0.  True iff provably infeasible over Q."""
+        cons = [(dict(c), k, st_) for c, k, st_ in cons]
+        for _round in range(24):
+            # contradictions among variable-free constraints
+            rest = []
+            for c, k, st_ in cons:
+                c = {v: x for v, x in c.items() if x != 0}
+                if not c:
+                    if k > 0 or (k == 0 and st_):
+                        return True
+                    continue
+                rest.append((c, k, st_))
+            cons = rest
+            if not cons:
+                return False
+            # eliminate the variable with the fewest (pos x neg) products
+            occ = {}
+            for c, k, st_ in cons:
+                for v, x in c.items():
+                    p_, n_ = occ.get(v, (0, 0))
+                    occ[v] = (p_ + (x > 0), n_ + (x < 0))
+            v = min(occ, key=lambda u: occ[u][0] * occ[u][1])
+            pos = [(c, k, st_) for c, k, st_ in cons if c.get(v, 0) > 0]
+            neg = [(c, k, st_) for c, k, st_ in cons if c.get(v, 0) < 0]
+            new = [(c, k, st_) for c, k, st_ in cons if c.get(v, 0) == 0]
+            if len(pos) * len(neg) > 400:
+                return False
+            for c1, k1, s1 in pos:
+                for c2, k2, s2 in neg:
+                    a1, a2 = c1[v], -c2[v]
+                    c = {}
+                    for u, x in c1.items():
+                        if u != v:
+                            c[u] = c.get(u, Fr(0)) + x * a2
+                    for u, x in c2.items():
+                        if u != v:
+                            c[u] = c.get(u, Fr(0)) + x * a1
+                    new.append((c, k1 * a2 + k2 * a1, s1 or s2))
+            if len(new) > 600:
+                return False
+            cons = new
+        return False
+
+    def _fm_decide(self, op, d):
+        """decide `d op 0` by refuting its negation against the order facts and atom ranges (linear combinations of facts,
+        which the affine matching above cannot find: a <= b, b <= c |- a <= c)."""
+        if len(self.facts) > 60:
+            return None
+        dco, dk = self._lin(d)
+        if not dco or len(dco) > 8:
+            return None
+        base = []
+        vars_ = set(dco)
+        lin_facts = []
+        for f in self.facts:
+            if f.k[0] != 'cmp' or f.k[1] == '!=':
+                continue
+            co, k = self._lin(f.k[2])
+            if not co or len(co) > 8:
+                continue
+            lin_facts.append((f.k[1], co, k))
+        # connected component of the query
+        changed = True
+        while changed:
+            changed = False
+            for fop, co, k in lin_facts:
+                if vars_ & set(co) and not set(co) <= vars_:
+                    vars_ |= set(co)
+                    changed = True
+        if len(vars_) > 14:
+            return None
+        if not any(set(co) & vars_ for fop, co, k in lin_facts):
+            return None     # no order fact talks about these terms: interval evaluation above was already complete
+        ck = (len(self.facts), op, d.key())
+        cache = self.__dict__.setdefault('_fm_cache', {})
+        if ck in cache:
+            return cache[ck]
+        r_ = self._fm_decide2(op, d, dco, dk, vars_, lin_facts)
+        if r_ is not None:      # an undecided answer may become decidable when ranges are refined: never cached
+            if len(cache) > 4000:
+                cache.clear()
+            cache[ck] = r_
+        return r_
+
+    def _fm_decide2(self, op, d, dco, dk, vars_, lin_facts):
+        base = []
+        for fop, co, k in lin_facts:
+            if not (set(co) & vars_):
+                continue
+            integral = fop == '<' and self._int_valued(Poly(dict(co)))
+            if fop == '<':
+                base.append((co, k + (1 if integral and k.denominator == 1 else 0), not (integral and k.denominator == 1)))
+            elif fop == '<=':
+                base.append((co, k, False))
+            else:
+                base.append((co, k, False))
+                base.append(({v: -x for v, x in co.items()}, -k, False))
+        # min / max atoms: m = min(a, b) satisfies m <= a, m <= b always, and (m >= a or m >= b): the disjunction is
+        # handled by refuting every case (at most three such atoms)
+        splits = []
+        vars_ = set(vars_)
+        for m in sorted(vars_, key=repr):
+            if len(m) == 1 and m[0][1] == 1 and m[0][0][0] in ('min', 'max') and len(m[0][0]) == 3 \
+                    and isinstance(m[0][0][1], Poly) and isinstance(m[0][0][2], Poly):
+                a = m[0][0]
+                sgn = Fr(1) if a[0] == 'min' else Fr(-1)
+                alts = []
+                for arg in (a[1], a[2]):
+                    co, k = self._lin(arg)
+                    if len(co) > 6:
+                        alts = None
+                        break
+                    vars_ |= set(co)
+                    # min: m - arg <= 0 ; max: arg - m <= 0
+                    c1 = {v: -sgn * x for v, x in co.items()}
+                    c1[m] = c1.get(m, Fr(0)) + sgn
+                    base.append((c1, -sgn * k, False))
+                    # the case "m is this argument": the reverse inequality
+                    c2 = {v: sgn * x for v, x in co.items()}
+                    c2[m] = c2.get(m, Fr(0)) - sgn
+                    alts.append((c2, sgn * k, False))
+                if alts and len(splits) < 3:
+                    splits.append(alts)
+        for m in vars_:
+            lo, hi = self.rng(Poly({m: Fr(1)}))
+            if hi not in (INF, -INF):
+                base.append(({m: Fr(1)}, -hi, False))
+            if lo not in (INF, -INF):
+                base.append(({m: Fr(-1)}, lo, False))
+        if len(base) > 90:
+            return None
+        neg = lambda co: {v: -x for v, x in co.items()}
+        int_d = self._int_valued(d)
+        import itertools
+        cases = list(itertools.product(*splits)) if splits else [()]
+
+        def refute(co, k, strict):
+            return all(self._fm_infeasible(base + list(case) + [(co, k, strict)]) for case in cases)
+        # to prove d < 0 refute d >= 0 (-d <= 0); d <= 0: refute d > 0 (-d < 0; for integers -d + 1 <= 0)
+        def proves(o):
+            if o == '<':
+                return refute(neg(dco), -dk, False)
+            if o == '<=':
+                return refute(neg(dco), -dk + (1 if int_d else 0), not int_d)
+            if o == '>':
+                return refute(dco, dk, False)
+            if o == '>=':
+                return refute(dco, dk + (1 if int_d else 0), not int_d)
+        if op == '<':
+            if proves('<'):
+                return True
+            if proves('>='):
+                return False
+        elif op == '<=':
+            if proves('<='):
+                return True
+            if proves('>'):
+                return False
+        elif op == '==':
+            if proves('<=') and proves('>='):
+                return True
+            if proves('<') or proves('>'):
+                return False
+        elif op == '!=':
+            if proves('<') or proves('>'):
+                return True
+            if proves('<=') and proves('>='):
+                return False
         return None
 
     def simp(self, p, depth=0):
